@@ -5,7 +5,7 @@
    application's observations are compared with it), Model/RequestStream.v (h3's poll_recv_data, poll_recv_trailers,
    first-frame handling of server resolve_request / client recv_response over the FrameStream model; `rrun` is the
    documented application: first frame, recv_data until None, recv_trailers). *)
-From H3V Require Import Base.Bytes Gen.GenReqStream Spec.FrameVocab Spec.Frames Spec.FrameTrace Spec.RequestSeq
+From H3V Require Import Base.Bytes Gen.GenFrameTypes Gen.GenReqStream Spec.FrameVocab Spec.Frames Spec.FrameTrace Spec.RequestSeq
   Spec.RequestTrace Model.FrameDec Model.FrameStream Model.RequestStream Proofs.FramesProofs Proofs.RequestProofs.
 
 (* T1 + T2 + T3 (all interleavings, both roles): for EVERY history of chunk/FIN/reset arrivals (non-empty chunks)
@@ -61,6 +61,14 @@ Theorem C03_codes :
   srv_none_reset = Some H3_REQUEST_INCOMPLETE_rfc.
 Proof. exact request_codes. Qed.
 
+(* the SETTINGS identifier lists the frame decoder decides with (the reference reader is handed the model's verdict
+   on SETTINGS contents, so these lists are pinned here): reserved = exactly RFC 9114 7.2.4.1's 0x00,0x02..0x05 *)
+Theorem C03_settings_ids :
+  fs_forbidden_ids = [0; 2; 3; 4; 5] /\
+  fs_supported_ids = [6; 1; 7; 8; 727725890; 727725891; 51] /\
+  fs_settings_len = 8 /\ fs_settings_min = 2.
+Proof. exact settings_id_lists. Qed.
+
 (* ---------- non-vacuity ---------- *)
 (* HEADERS DATA(0) DATA(3) FIN, one frame per chunk: the zero-length DATA frame does not end the body *)
 Definition ex_zero_data : list raction :=
@@ -99,3 +107,4 @@ Print Assumptions C03_delivered_iff_language.
 Print Assumptions C03_body_is_payload.
 Print Assumptions C03_not_in_language_unexpected.
 Print Assumptions C03_codes.
+Print Assumptions C03_settings_ids.
